@@ -20,6 +20,7 @@ var ruleGroups = map[string]func(*Ctx){
 	"I1": rulesIndex, "I2": rulesIndex, "I3": rulesIndex, "I5": rulesIndex,
 	"J1": rulesSize, "N1": rulesSize, "N2": rulesSize, "N3": rulesSize,
 	"A1": rulesAccess, "A2": rulesAccess, "A3": rulesAccess, "A4": rulesAccess, "T1": rulesAccess, "N4": rulesAccess,
+	"Q1": rulesRepl, "Q2": rulesRepl, "G2": rulesRepl, "L2": rulesRepl,
 	"P1": rulesPersist, "E1": rulesPersist, "E2": rulesPersist, "I4": rulesPersist, "L1": rulesPersist,
 }
 
